@@ -284,6 +284,19 @@ fn ensure_inner_pool<'a, T: Send + 'static>(
     })
 }
 
+#[cfg(folo_verif)]
+impl BlindPool {
+    /// Verification hook: read-only internal consistency probe.
+    #[doc(hidden)]
+    pub fn __verif_check(&self) -> Result<(), String> {
+        self.core
+            .lock()
+            .expect(NEVER_POISONED)
+            .values()
+            .try_for_each(|pool| pool.__verif_check())
+    }
+}
+
 #[cfg(test)]
 #[cfg_attr(coverage_nightly, coverage(off))]
 mod tests {
